@@ -142,6 +142,14 @@ CopyAllowed(ev) ==
        ELSE /\ Len(ev.seen) = ev.checked
             /\ \A k \in 1..Len(ev.seen) : ev.seen[k] \in HeldBy(ev, k)
 
+\* The source pointer itself lives in sandbox memory and is redirected (src -> alt) during RLBox's
+\* first range check: the snapshot comes from the string whose address was read before that, or
+\* from the new one provided the new address was range-checked too; never check one, use the other.
+PCellAllowed(ev) ==
+  \/ ev.out = "abort"
+  \/ ev.out = "ok" /\ ev.region = "src"
+  \/ ev.out = "ok" /\ ev.region = "alt" /\ \E j \in 1..Len(ev.checks_after) : ev.checks_after[j] = "alt"
+
 (***************************************************************************)
 (* Invariants of the Model (the design has no check/use window)            *)
 (***************************************************************************)
